@@ -356,6 +356,8 @@ def kron_check(case):
             if max(abs(tr_in), coef * max(max(r) for r in K)) >= 2 ** 62:
                 return ok(False, skipped="entries exceed int64")
             X = X.astype(np.int64)
+    # the two reference formulations (index contraction vs Kronecker factors) must agree before toqito is judged
+    assert lb.ptrace_expected(X, dims, S) == [list(r) for r in exp], "reference models disagree (contraction vs factor oracle)"
     got, exc = run_pt(X, sys_, list(dims))
     if exc is not None:
         return viol("partial_trace raised on a Kronecker product: " + exc_text(exc), site=SITE + ":exception", observed=exc_text(exc))
